@@ -20,7 +20,7 @@ CLAIMS = {
         text='Decides that each build configuration selects the hash / digest bytes / PoW hash its feature names, that features '
              'are wired consistently across crates, that every layout rejects a foreign layout code and the parser emits the '
              'matching code and constants, and the Stone 5/6 digest preimage order. That the shipped proofs verify is an '
-             'execution and is not decided.',
+             'execution and is not decided. Added: which layers are masked at all (table flag = friendly layers >= height + 1; node flag = threshold >= node depth; threshold = configured count).',
         ref='4 C03'),
     'C04': dict(
         technique='must-pass-through + guard extraction (root comparison), Option result-discipline on every lookup of the Merkle '
@@ -28,14 +28,14 @@ CLAIMS = {
                   'reconstruction of the index arithmetic',
         text='Decides the binding comparison, that a missing node yields Err, the four hash variants and the preimage order, the '
              'friendly/masked selection and the parent/pair/stop index arithmetic. Completeness and binding of the queue walk '
-             'for all shapes is not decided.',
+             'for all shapes is not decided. Added: path-sensitive left/right argument order by the index bit, and that queue[start+1] is read only after start+1 != len.',
         ref='4 C04'),
     'C05': dict(
         technique='guard extraction (length guard), def-use expression reconstruction (Montgomery conversion, row slices, flag), '
                   'literal table (2^256 mod p), hasher tables over the 4 hash configurations, checked delegation',
         text='Decides the length guard, that every hashed cell is Montgomery-converted with the right constant, the row slice '
              'bounds, single-column bypass, friendly flag (height+1) and hash variants, and that the vector verdict is the '
-             'table verdict. Hash binding is not decided.',
+             'table verdict. Hash binding is not decided. Added: Montgomery conversion exactly once (caller or callee); the row walk over a symbolic row index (loop / enumerate / zip-with-chunks).',
         ref='4 C05'),
     'C19': dict(
         technique='cast inventory and panic-site inventory over the MIR of the parser and CLI-conversion shim crates; Option '
@@ -43,7 +43,7 @@ CLAIMS = {
                   'HIR/ADT table agreement (builtin order vs segment indices, sorted key order vs DynamicParams field order)',
         text='Decides which conversions are lossy, which malformed inputs crash instead of returning Err, that no fallible parse '
              'result is swallowed, that no parsed field is dropped or invented by the conversion, and the three order tables. '
-             'Regex semantics (which lines are selected) and main.rs are not decided.',
+             'Regex semantics (which lines are selected) and main.rs are not decided. Added: field-to-field correspondence of the CLI conversion (incl. indexed fields), the parser\'s derivations (exact for small helpers, end-to-end additions-only otherwise), annotation kinds, main-page selection, log2 helper.',
         ref='4 C19'),
     'C18': dict(
         technique='panic-site inventory over the MIR of everything reachable from verify / config validation / public-input '
@@ -59,7 +59,7 @@ CLAIMS = {
                   'field order (340 positions)',
         text='Decides that the digest depends on every listed field, on both lengths, on the chain accumulator, on the friendly-'
              'layer count exactly under stone6, and that every dynamic parameter is flattened at its own position. Collision '
-             'resistance and agreement with the prover are not decided.',
+             'resistance and agreement with the prover are not decided. Added: only structure-preserving operations between the public input and the hashes (binding on every evaluation, not only may-flow); N_DYNAMIC_PARAMS equals the field count.',
         ref='4 C13'),
     'C14': dict(
         technique='per-layout guard tables generated from the layout\'s own segment/ratio declarations and compared both ways with '
@@ -67,7 +67,7 @@ CLAIMS = {
                   'addresses to rejecting comparisons in verify_public_input',
         text='Decides presence/operands/constants of every validation conjunct per layout incl. one usage guard per declared '
              'builtin segment, absence of other rejection conditions, the layout-code literal, and whether program/output cells '
-             'are address-checked (today: genuine defect in all 7 layouts, listed in known_findings.json).',
+             'are address-checked (today: genuine defect in all 7 layouts, listed in known_findings.json). Added: layout constants against a confirmed table; verify_public_input\'s entry conditions and the (offset, address, length) of its two extractions; safe_mult/safe_div shapes; the three dynamic unit budgets as sums of products with the specified coefficients.',
         ref='4 C14'),
     'C17': dict(
         technique='inventory of loops / iterator pipelines / allocations / recursion over Reach(verify) per layout; bounding '
@@ -75,7 +75,7 @@ CLAIMS = {
                   'dominating upper-bound guard',
         text='Decides that no loop, pipeline or allocation reachable from verify is bounded by a numeric proof field lacking a '
              'validated upper bound that precedes it, that the only recursion is the tabled Merkle walk, and that generated '
-             'evaluators are loop-free. Actual time/memory and external-crate costs are not decided.',
+             'evaluators are loop-free. Actual time/memory and external-crate costs are not decided. Added: an upper bound validates a loop count / allocation size only if it is <= 2^24.',
         ref='4 C17'),
     'C08': dict(
         technique='transcript event automaton: NFA abstraction of the accepting paths of verify::<Layout> (callees inlined) '
@@ -84,7 +84,7 @@ CLAIMS = {
         text='Decides per layout that every prover message is absorbed exactly once and before the challenges that follow it, '
              'that the PoW digest is read before the nonce is absorbed, the sponge discipline of the 5 Transcript methods, '
              'who may write transcript state, distinct squeeze sites per challenge role, and absence of nondeterministic '
-             'callees. Equality with the transcript the prover logged is not decided.',
+             'callees. Equality with the transcript the prover logged is not decided. Added: no loop bound or exit condition in a transcript-touching function depends on a squeezed value (the number of transcript operations is fixed by configuration).',
         ref='4 C08'),
     'C09': dict(
         technique='guard extraction + literal tables (difficulty bounds), dominance order rules, ordered mutation-event '
@@ -99,7 +99,7 @@ CLAIMS = {
                   'of the sampling closure and of the point formula, literal tables',
         text='Decides that the returned index vector is sorted and deduplicated on every path, that each sample is a remainder '
              'modulo the evaluation-domain size, the sample count source, and the point formula 3*w^bitreverse64(i*2^(64-log)). '
-             'Agreement with the prover-logged set is not decided.',
+             'Agreement with the prover-logged set is not decided. Added: the evaluation-domain closed forms (size 2^(t+c), generator 3^((p-1)/size)) of StarkDomains::new.',
         ref='4 C10'),
     'C02': dict(
         technique='field-flow coverage: interprocedural leaf-set dataflow from every leaf field of StarkProof (type closure '
@@ -107,7 +107,7 @@ CLAIMS = {
                   'result-discipline dataflow; length-guard extraction',
         text='Decides that no proof field is a free position (each reaches a hash primitive or a rejecting comparison whose '
              'verdict reaches verify), that no verdict is dropped, and that the four length guards exist. That a changed '
-             'value changes the hash (collision resistance) is not decided; absorb ordering is C08.',
+             'value changes the hash (collision resistance) is not decided; absorb ordering is C08. Added: the public-input digest uses only structure-preserving operations (no filter / fallback / value-dependent branch); every byte of both children enters the masked node hash.',
         ref='4 C02'),
     'C07': dict(
         technique='transitive must-pass-through with verdict propagation (per loop iteration), guard extraction, field-flow '
@@ -122,7 +122,7 @@ CLAIMS = {
         text='Decides the structural necessary conditions the statement enumerates: OODS length coupling guard, FRI input '
              'size tied to the evaluation domain, blow-up exponent bounds, no dropped/swallowed Result in Reach(verify), every '
              'verification step on every accepting path with its verdict propagated, OODS equation operands. Soundness proper '
-             '(that these checks force a satisfying trace) is not decided.',
+             '(that these checks force a satisfying trace) is not decided. Added after the seeded/mutation campaigns: layout/AIR constants against a confirmed table, periodic-column gating and argument signatures, GlobalValues input signatures.',
         ref='4 C01'),
     'C11': dict(
         technique='guard extraction (MIR comparison + branch classification, callees inlined by summary substitution) compared '
@@ -153,7 +153,7 @@ CLAIMS = {
         text='Decides, for every coefficient position of every layout, that exactly one linear term '
              'coeff[i]*value exists, that its value depends on the right openings, that the coefficient '
              'vector is used nowhere else, and that dynamic-layout conditions are builtin flags only. '
-             'Static, all inputs; algebraic non-vanishing of a term is not decided.',
+             'Static, all inputs; algebraic non-vanishing of a term is not decided. Added: powers_array is the accumulator loop (coefficient i = alpha^i), parameter roles inferred.',
         ref='4 C16'),
 }
 
